@@ -1,4 +1,5 @@
 import Hyeong.Lemmas.NumProof
+import Hyeong.Lemmas.BranchRule
 /-!
 # C07 — comparison of rationals is the numeric order; NaN is unordered
 (core `Rat` has no `Ord` instance, hence four iff-statements). Property theorems only.
@@ -20,6 +21,18 @@ theorem cmp_gt_iff (a b : NumI) (ha : Canon a) (hb : Canon b) :
 /-- `unordered` exactly when at least one side is NaN -/
 theorem cmp_nan_iff (a b : NumI) : cmp a b = none ↔ (isNan a = true ∨ isNan b = true) :=
   HyN.cmp_nan_iff a b
+
+/-- Consequently: in the interpreter model a `?` branch is taken (left subtree) iff the popped value is a number
+below the command's count, a `!` branch iff it is a number equal to it; every other value — in particular NaN —
+goes right. (`v` is the value `pop` delivers from the selected stack; values on stacks are canonical rationals
+or NaN, C01.) -/
+theorem branch_rule (m : HyE.M NumI) (cnt : Nat) (l r : HyP.Area) (v : NumI) (m' : HyE.M NumI)
+    (hpop : HyE.popWrap m m.1.cur = .ok (v, m')) (hv : Valid v) :
+    HyE.areaCalc m cnt (.val 0 l r) =
+      (if ∃ q, toRat v = some q ∧ q < (cnt : Rat) then HyE.areaCalc m' cnt l else HyE.areaCalc m' cnt r) ∧
+    HyE.areaCalc m cnt (.val 1 l r) =
+      (if ∃ q, toRat v = some q ∧ q = (cnt : Rat) then HyE.areaCalc m' cnt l else HyE.areaCalc m' cnt r) :=
+  HyE.branch_rule m cnt l r v m' hpop hv
 
 /-- regression witnesses (D3): `1 < 3`, `2 < 7/2`, values differing only in the denominator -/
 example : cmp ⟨1, 1⟩ ⟨3, 1⟩ = some .lt ∧ cmp ⟨2, 1⟩ ⟨7, 2⟩ = some .lt ∧ cmp ⟨1, 2⟩ ⟨1, 3⟩ = some .gt ∧
